@@ -97,6 +97,10 @@ bool CTRCommon::setKey(const uint8_t *key, size_t len)
     if (blockCipher->blockSize() != 16)
         return false;
 
+    // Abandon any keystream that was generated with the previous key,
+    // as documented for Cipher::setKey() and as the C library does.
+    posn = 16;
+
     // Set the key on the underlying block cipher.
     return blockCipher->setKey(key, len);
 }
